@@ -382,7 +382,7 @@ bool exec_line(char *line, int lineno, int thr) {
 			up_set_gaps(g, k);
 		}
 		up_feed(buf, (size_t) len);
-		bool idle = rx_wait_idle(2000);
+		bool idle = bidib_running ? rx_wait_idle(2000) : false;
 		HEAD(); fprintf(vout, ",\"n\":%d,\"idle\":%s", len, idle ? "true" : "false"); out_wire(); TAIL();
 	} else if (strcmp(op, "drain") == 0) {
 		HEAD(); fputc(',', vout);
@@ -404,10 +404,10 @@ bool exec_line(char *line, int lineno, int thr) {
 		long r = hl_call(tok[1], n - 2, tok + 2);
 		HEAD(); fprintf(vout, ",\"fn\":\"%s\",\"ret\":%ld", tok[1], r); out_wire(); TAIL();
 	} else if (strcmp(op, "getall") == 0) {
-		HEAD(); fputs(",\"st\":", vout); proj_all(); out_wire(); TAIL();
+		HEAD(); fputs(",\"st\":", vout); if (bidib_running) proj_all(); else fputs("null", vout); out_wire(); TAIL();
 	} else if (strcmp(op, "get") == 0) {
 		HEAD(); fprintf(vout, ",\"fn\":\"%s\",\"arg\":", tok[1]); out_str(n > 2 ? arg_str(tok[2]) : NULL);
-		fputs(",\"res\":", vout); proj_get(tok[1], n - 2, tok + 2); TAIL();
+		fputs(",\"res\":", vout); if (bidib_running) proj_get(tok[1], n - 2, tok + 2); else fputs("null", vout); TAIL();
 	} else if (strcmp(op, "tables") == 0) {
 		HEAD(); fputs(",\"respinfo\":[", vout);
 		for (int t = 0; t < 0x80; t++) {
